@@ -10,6 +10,7 @@ import (
 	"math/big"
 	"os"
 	"strconv"
+	"strings"
 
 	lucene "github.com/grindlemire/go-lucene"
 )
@@ -130,6 +131,13 @@ func cmdSQLCases(args []string) {
 		}
 		// the same text is first rendered under another default field: nothing of that call may show in the next one
 		renderBoth(q, "zz_other")
+		// ... and calls whose (default field, query) pair concatenates to the same text as this one's, whatever the separator:
+		// a memo keyed by such a concatenation would answer this call with the other call's tree
+		for _, sep := range []string{":", "|", " ", "/", "\x00", ""} {
+			if i := strings.Index(q, sep); i > 0 && i+len(sep) < len(q) {
+				renderBoth(q[i+len(sep):], df+sep+q[:i])
+			}
+		}
 		inline, param := renderBoth(q, df)
 		c["inline"], c["param"] = inline, param
 		pr := r.record(n, q, df)
